@@ -1,7 +1,8 @@
 /* C16 - owner, group and symlink restrictions gate every file of every read.
  * Space: trees (name universe --p0, main file {absent, regular}) x attribute assignment to the files present
  * (owner required/foreign x group required/foreign x regular/symlink-to-regular), deviation-bounded: at most --p1
- * files differ from (required, required, regular) x the 8 combinations of active restrictions x entry point (mc_tag).
+ * files differ from (required, required, regular) x the 8 combinations of active restrictions, each with and without a
+ * permission requirement that all files satisfy, x entry point (mc_tag).
  * Oracle: reference processing list; the first consulted file violating an active rule decides the code; content of such
  * a file never reaches a result; after econf_reset_security_settings() the plain C01 result. Needs root (lchown). */
 #include "tree.h"
@@ -13,7 +14,7 @@ static int nu = 2, maxdev = 1;
 static char root[300], options[600];
 static tree_state want;
 static int attr[T_MAXF];          /* bit0 foreign owner, bit1 foreign group, bit2 symlink */
-static int restr;                 /* bit0 requireOwner, bit1 requireGroup, bit2 no symlinks */
+static int restr;                 /* bit0 requireOwner, bit1 requireGroup, bit2 no symlinks, bit3 a permission requirement that every file and directory of the tree satisfies */
 #define FOREIGN_UID 12345
 #define FOREIGN_GID 23456
 
@@ -52,7 +53,7 @@ static int present(const tree_state *st, int id)
 static void gen(void)
 {
   t_gen_state(&want, 2);
-  restr = mc_choose(8);
+  restr = mc_choose(16);
   for (int id = 0; id < ts.nfiles; id++) attr[id] = present(&want, id) ? mc_choose_dev(8) : 0;
 }
 
@@ -154,7 +155,7 @@ static void exec(void)
   int list[T_MAXF];
   int nlist = t_ref_list(&want, list);
   if (mc_tag < 2 && want.mainst[0] == M_ABSENT) nlist = 0;
-  sb_printf(&sig, "%s restrictions={%s%s%s} attrs={", EPN[mc_tag], (restr & 1) ? "owner " : "", (restr & 2) ? "group " : "", (restr & 4) ? "nosymlink" : "");
+  sb_printf(&sig, "%s restrictions={%s%s%s%s} attrs={", EPN[mc_tag], (restr & 1) ? "owner " : "", (restr & 2) ? "group " : "", (restr & 4) ? "nosymlink " : "", (restr & 8) ? "permissions(satisfied)" : "");
   for (int id = 0; id < ts.nfiles; id++) if (attr[id]) sb_printf(&sig, "%s:%s%s%s ", t_path[id] + strlen(root), (attr[id] & 1) ? "foreign-owner," : "", (attr[id] & 2) ? "foreign-group," : "", (attr[id] & 4) ? "symlink" : "");
   sb_puts(&sig, "} tree="); t_describe(&sig, &want);
   snprintf(mc_case_sig, sizeof mc_case_sig, "%s", sig.s);
@@ -165,6 +166,7 @@ static void exec(void)
   if (restr & 1) econf_requireOwner(0);
   if (restr & 2) econf_requireGroup(0);
   if (restr & 4) econf_followSymlinks(false);
+  if (restr & 8) econf_requirePermissions(0644, 0755);   /* satisfied everywhere: must not change what the other rules decide */
 
   /* first consulted file that violates an active rule */
   int codes[4], ncodes = 0, viol_at = -1;
